@@ -164,7 +164,7 @@ def Flags.measured : Flags :=
   { Flags.fixed with inputLocationSigned := false, windowChecked := false, verifyDropsPrivilegedTypes := false }
 
 /-- the eight repairs the `*_repaired` theorems need; `inputLocationSigned`, `windowChecked` and
-    `verifyDropsPrivilegedTypes` are left arbitrary -/
+    `verifyDropsPrivilegedTypes` (and `fullBlockNoSpv`) are left arbitrary -/
 structure Repaired8 (fl : Flags) : Prop where
   txVerdictPropagated : fl.txVerdictPropagated = true
   dupInputsDetected : fl.dupInputsDetected = true
@@ -182,17 +182,18 @@ example : Repaired8 Flags.fixed := Repaired8.fixed
 example : Repaired8 { Flags.fixed with inputLocationSigned := false, windowChecked := false,
                                        verifyDropsPrivilegedTypes := false } := Repaired8.measured
 
-/-- `Repaired8` holds of exactly the eight vectors that differ from `Flags.fixed` in the three free flags only -/
+/-- `Repaired8` holds of exactly the sixteen vectors that differ from `Flags.fixed` in the four free flags only -/
 theorem repaired8_iff (fl : Flags) : Repaired8 fl ↔
-    ∃ a b c, fl = { Flags.fixed with inputLocationSigned := a, windowChecked := b, verifyDropsPrivilegedTypes := c } := by
+    ∃ a b c d, fl = { Flags.fixed with inputLocationSigned := a, windowChecked := b, verifyDropsPrivilegedTypes := c,
+                                       fullBlockNoSpv := d } := by
   constructor
   · intro h
     obtain ⟨h1, h2, h3, h4, h5, h6, h7, h8⟩ := h
     cases fl
     simp only at h1 h2 h3 h4 h5 h6 h7 h8
     subst h1 h2 h3 h4 h5 h6 h7 h8
-    exact ⟨_, _, _, rfl⟩
-  · rintro ⟨a, b, c, rfl⟩
+    exact ⟨_, _, _, _, rfl⟩
+  · rintro ⟨a, b, c, d, rfl⟩
     exact ⟨rfl, rfl, rfl, rfl, rfl, rfl, rfl, rfl⟩
 
 
